@@ -446,7 +446,12 @@ class TagList(UserList[TagNode]):
                 if prev_was_add_ws:
                     html_ += "  " * indent
 
-                html_ += child._repr_html_()  # pyright: ignore[reportPrivateUsage]
+                # Convert to a plain str first: if _repr_html_() hands back an HTML() object,
+                # `html_ += ...` would go through HTML.__radd__() and escape everything
+                # that has been written so far.
+                html_ += _plain_text(
+                    child._repr_html_()  # pyright: ignore[reportPrivateUsage]
+                )
 
                 prev_was_add_ws = False
 
